@@ -261,6 +261,16 @@ impl<'tcx> Cx<'tcx> {
             }
             _ => {}
         }
+        // string literal?
+        if let ConstValue::Slice { alloc_id, meta } = val {
+            if let ty::Ref(_, inner, _) = t.kind() {
+                if inner.is_str() {
+                    let alloc = self.tcx.global_alloc(alloc_id).unwrap_memory();
+                    let bytes = alloc.inner().inspect_with_uninit_and_ptr_outside_interpreter(0..(meta as usize));
+                    return J::O(vec![("str", s(String::from_utf8_lossy(bytes).to_string())), ("ty", s(tys))]);
+                }
+            }
+        }
         // pointer to a static?
         if let ConstValue::Scalar(rustc_middle::mir::interpret::Scalar::Ptr(ptr, _)) = val {
             let (prov, _off) = ptr.into_raw_parts();
